@@ -110,6 +110,8 @@ def build_corpus(tier, rng):
         [(None, None), (None, None), (100, "50 * 2"), (99, None)],
         [(250, None), (None, None), (None, None), (0, None)],
         [(1, None), (None, None), (None, None), (None, None), (20, None), (None, None)],
+        # explicit discriminants in REDUNDANT parentheses whose top-level operator binds looser than `+` (seed C06_r14)
+        [(4, "(1 << 2)"), (None, None), (12, "(8 | 4)"), (None, None), (1, "(3 & 1)"), (None, None), (24, "((16 ^ 8))"), (None, None)],
     ]
     neg_shapes = [
         [(-3, None), (None, None), (None, None), (None, None), (None, None)],
